@@ -19,9 +19,9 @@ RULE = ("templates aimed at the key-flow/type-flow analysis (use-before-create, 
         "consumed downstream, defaults shadowed by producers, from_context chains) mixed with the C01 generator; each "
         "configuration is inspected+validated, then run with exactly the reported required keys and with random supersets; "
         "distinct = hash of nodes; non-trivial = inspection accepted it and >= 2 nodes ran, or it has an unknown parameter")
-SHARDS = {"quick": 8, "thorough": 16}  # fresh processes: per-run class generation in semantiva makes a long-lived process quadratically slower
+SHARDS = {"quick": 8, "thorough": 48}  # fresh processes: per-run class generation in semantiva makes a long-lived process quadratically slower
 SHARD_TIMEOUT = {"thorough": 2400}
-N_CASES = {"quick": 300, "thorough": 800}  # per shard
+N_CASES = {"quick": 300, "thorough": 400}  # per shard
 
 FLOW = {"unresolvable_param", "type_gate", "construction"}
 
